@@ -138,6 +138,9 @@ def main():
     for pid in PROPS:
         if pid in CLAIMED:
             tech, text, note, ref = CLAIMED[pid]
+            sm = os.path.join(VERIF, 'summaries', pid + '.md')   # refreshed by the property's builder after the last strengthening round
+            if os.path.exists(sm):
+                text = ' '.join(open(sm).read().split())
             checks.append({
                 'property_id': pid,
                 'quick_cmd': f'./check {pid} quick',
